@@ -9,6 +9,10 @@ Diff(r, exp) ==
   ELSE {"wrong-" \o k : k \in {k2 \in DOMAIN exp : r[k2] # exp[k2]}}
 
 Pre(c) == IF c THEN {} ELSE {"HARNESS-PRECONDITION"}
+(* lazy form: the prediction is not even evaluated when the precondition fails (an input that comes out
+   of an fcppt object - enum names, an enum array - may be corrupted by the code under test; evaluating
+   the reference on it could raise a TLC error instead of a verdict) *)
+PreThen(c, ws) == IF c THEN ws ELSE {"HARNESS-PRECONDITION"}
 Res(r, x) == Diff(r, [r |-> x])
 
 SrcOk(r) == ("src" \in DOMAIN r /\ "xs" \in DOMAIN r /\ r.src = "set") => IsStrictlySorted(r.xs)
@@ -40,6 +44,7 @@ AlgReasons(r) ==
            \cup (IF IsEquivalence(r.bt) /\ ~UniqueLogOk(eq, r.xs, r.log) THEN {"wrong-log"} ELSE {})
     [] f = "reverse" -> Diff(r, [r |-> Reverse(r.xs), after |-> r.xs])
     [] f = "repeat" -> Pre(r.n >= 0) \cup Diff(r, RepeatR(r.n))
+    [] f = "repeat_negative" -> Pre(r.n < 0) \cup Diff(r, RepeatR(0))   \* observed only: no call
     [] f = "generate_n" -> Pre(r.n >= 0) \cup Diff(r, GenerateNR(r.tgt, r.n, r.ft))
     [] f = "split_string" -> Diff(r, SplitStringR(r.s, r.d))
     [] f = "join_strings" -> Diff(r, JoinStringsR(r.ss, r.d))
@@ -88,14 +93,14 @@ AlgReasons(r) ==
     [] f \in {"data", "range_begin_end"} -> Diff(r, DataR(r.xs))
     [] f \in {"container_output", "array_output"} -> Res(r, SeqText(r.xs))
     [] f = "tuple_output" -> Res(r, TupleText(r.xs))
-    [] f = "enum_array_output" -> Pre(Len(r.names) = Len(r.xs)) \cup Res(r, EnumArrayText(r.names, r.xs))
+    [] f = "enum_array_output" -> PreThen(Len(r.names) = Len(r.xs), Res(r, EnumArrayText(r.names, r.xs)))
     [] f = "index_map_get" -> Diff(r, IndexMapGetR(r.xs, r.i, LAMBDA j : Ap(r.ft, j % 3), r.bump))
     [] f = "index_map_subscript" -> Diff(r, IndexMapSubscriptR(r.xs, r.i, r.bump))
     [] f = "range_empty" -> Res(r, RangeEmpty(r.xs))
     [] f = "range_size" -> Res(r, RangeSize(r.xs))
     [] f = "range_singular" -> Res(r, RangeSingular(r.xs))
-    [] f = "range_from_pair" -> Pre(0 <= r.i /\ r.i <= r.j /\ r.j <= Len(r.xs)) \cup Res(r, RangeFromPair(r.xs, r.i, r.j))
-    [] f \in {"array_apply", "tuple_apply"} -> Pre(Len(r.a) = Len(r.b)) \cup Diff(r, ArrayApplyR(r.ft2, r.a, r.b))
+    [] f = "range_from_pair" -> PreThen(0 <= r.i /\ r.i <= r.j /\ r.j <= Len(r.xs), Res(r, RangeFromPair(r.xs, r.i, r.j)))
+    [] f \in {"array_apply", "tuple_apply"} -> PreThen(Len(r.a) = Len(r.b), Diff(r, ArrayApplyR(r.ft2, r.a, r.b)))
     [] f \in {"array_make", "tuple_make", "tuple_from_array"} -> Res(r, r.xs)
     [] f = "array_members" -> Diff(r, ArrayMembersR(r.xs))
     [] f = "tuple_get" -> Diff(r, [get |-> r.xs])
@@ -104,7 +109,7 @@ AlgReasons(r) ==
     [] f = "tuple_invoke" -> Diff(r, TupleInvokeR(r.ft, r.xs))
     [] f = "tuple_init" -> Diff(r, TupleInitR(r.n, r.ft))
     [] f = "enum_array_init" -> Diff(r, EnumArrayInitR(r.n, r.ft))
-    [] f = "enum_array_at" -> Pre(0 <= r.e /\ r.e < Len(r.xs)) \cup Diff(r, EnumArrayAtR(r.xs, r.e, r.bump))
+    [] f = "enum_array_at" -> PreThen(0 <= r.e /\ r.e < Len(r.xs), Diff(r, EnumArrayAtR(r.xs, r.e, r.bump)))
     [] f = "enum_index_of_array" -> Res(r, EnumIndexOfArray(r.xs, r.v))
     [] f = "enum_to_static" -> Pre(0 <= r.e /\ r.e < r.n) \cup Diff(r, EnumToStaticR(r.ft, r.e))
     [] f = "enum_names" -> Res(r, r.names)
